@@ -147,8 +147,12 @@ Definition extract_tx_with (arms : list (lt_pat * lt_pat * lt_act)) (exempt : bo
 Definition extract_tx : pset -> outcome tx := extract_tx_with locktime_arms is_pegin_exempts_coinbase.
 
 (* ---------------------------------------------------------------- unique_id *)
+(* what TxIn's consensus encoding without witness writes (src/transaction.rs, `impl Encodable for TxIn`): txid, the output index with the
+   pegin and issuance flags folded into bits 30/31, script_sig, sequence, and the issuance only when it is non-null *)
 Definition strip_in_witness (i : txin) : txin :=
-  mk_txin (ti_txid i) (ti_vout i) (ti_pegin i) (ti_script_sig i) (ti_sequence i) (ti_iss_nonce i) (ti_iss_entropy i)
+  let hi := ti_has_issuance i in
+  let v := N.lor (N.lor (ti_vout i) (if ti_pegin i then 2 ^ 30 else 0)) (if hi then 2 ^ 31 else 0) in
+  mk_txin (ti_txid i) v false (ti_script_sig i) (ti_sequence i) (if hi then ti_iss_nonce i else zero32) (if hi then ti_iss_entropy i else zero32)
           (ti_iss_amount i) (ti_iss_keys i) None None [] [].
 Definition strip_out_witness (o : txout) : txout := mk_txout (to_asset o) (to_value o) (to_nonce o) (to_spk o) None None.
 Definition mem_field (f : field) (l : list field) : bool := existsb (bytes_eqb f) l.
